@@ -835,8 +835,11 @@ def c08_r4(ctx):
     h, hcall, node = handler_fn(ctx)
     R = Roles(ctx.P)
     res = [c for c in h.calls if ctx.P.local_targets(c) and "Vec<blob::FileResolution>" in ctx.P.fns[ctx.P.local_targets(c)[0]].body.get("output", {}).get("s", "")]
-    ctx.need(len(res) == 1, "resolution step call in the handler")
-    ok_e = h.edges_of_call_variant(res[0], "Ok")
+    ctx.need(res, "resolution step call in the handler")
+    # (several when the step's wrapper was dissolved into the handler: one per way of resolving)
+    ok_e = set()
+    for rc in res:
+        ok_e |= h.edges_of_call_variant(rc, "Ok")
     for c in h.calls:
         if any(R.reaches_exec(t) for t in ctx.P.local_targets(c)):
             ctx.inst("rebuild after resolution", c.where)
@@ -976,6 +979,20 @@ def c10_r3(ctx):
                 ctx.ok()
             else:
                 ctx.viol((f.id, "download-permission"), "a downloaded target does not get its remembered executable permission", d.where)
+    # a file renamed out of the cache keeps the permission it was stored with: the only
+    # permission changes ruler makes are those of freshly downloaded files
+    for f in prod(ctx.P):
+        if is_real_system(f) or f.body["span"]["file"].endswith(("system/fake.rs", "system/mod.rs", "system/util.rs")):
+            continue
+        for s in sys_calls(f, "set_is_executable"):
+            ctx.inst("permission change in %s" % f.id, s.where)
+            done = set()
+            for d in f.calls_to(DL_RESTORE):
+                done |= f.edges_of_call_variant(d, "Done")
+            if done and f.dominated_by_edges(s.bb, done):
+                ctx.ok()
+            else:
+                ctx.viol((f.id, "permission-changed-outside-download"), "the executable permission of a target is set on a path that did not just download it (e.g. after a restore by rename, which keeps the file's own permission): a target brought back from the cache can lose or gain its executable bit", s.where)
     # the None arm reaches the restore before any NeedsRebuild: C02.R4
 
 
